@@ -248,4 +248,19 @@ theorem unresolved_eq_logged_minus_book (db : Book) (es : Elements) :
 theorem stats_counts_headings (evs : List Event) :
     countNodes evs = (evs.filter (fun ev => match ev with | .node _ => true | _ => false)).length := rfl
 
+/-- **the `(N days ago)` figure of `stats` is the distance in calendar days** between the configured current date and the
+    record, for every pair of dates less than 106751 days (the range of a Go `Duration`) apart -/
+theorem stats_days_ago (today c : Civil) (h1 : Date.toDays today - Date.toDays c ≤ 106751) (h2 : -106751 ≤ Date.toDays today - Date.toDays c) :
+    daysAgo (Date.instant today) (some c) = Date.toDays today - Date.toDays c := by
+  unfold daysAgo Date.instant maxDuration Date.nsPerDay
+  simp only []
+  generalize Date.toDays today = a at *
+  generalize Date.toDays c = b at *
+  have e : a * (86400 * 1000000000) - b * (86400 * 1000000000) = (a - b) * 86400000000000 := by omega
+  rw [e]
+  rw [if_neg (by omega), if_neg (by omega)]
+  exact Int.mul_tdiv_cancel _ (by decide)
+
+example : daysAgo (Date.instant ⟨2021, 5, 6⟩) (some ⟨2020, 3, 1⟩) = 431 := by decide +kernel
+
 end Hrano.C07
